@@ -452,3 +452,4 @@ def run(chk, tier, only_rule=None):
     r12_5(chk, tier)
     c05.r05_6(chk, tier, units=['jsonpath'], floor=80)
     c05.r05_7(chk, tier, units=['jsonpath'], floor=100)
+    c05.r05_10(chk, tier, units=('jsonpath',))
